@@ -29,7 +29,7 @@ func genHoldExpiry(r *rand.Rand, p *Profile) *CaseIn {
 	focus := r.Intn(2)
 	h := &in.Hosts[focus]
 	h.Mode = "bearer"
-	h.Challenge = []string{bearer(realmURLs[focus], r.Intn(5))}
+	h.Challenge = []string{bearer(realmURLs[focus], r.Intn(nBearer))}
 	if h.Access != "" && r.Intn(4) != 0 {
 		h.Access = "" // a configured token answers everything: keep only a few of those
 	}
